@@ -11,6 +11,9 @@ import genlib
 def main():
     lang, sw, seeds, out = sys.argv[1], json.loads(sys.argv[2]), json.loads(sys.argv[3]), sys.argv[4]
     KINDS = set(sys.argv[5].split(",")) if len(sys.argv) > 5 else {"is_subtype", "find_subtypes", "find_irrelevant", "instantiate", "unify"}
+    SCENES = (sys.argv[6], int(sys.argv[7]) if len(sys.argv) > 7 else 24) if len(sys.argv) > 6 else None      # (genlib.setup rewrites sys.argv)
+    if SCENES:
+        KINDS |= {"match", "prune", "compare"}
     genlib.setup(lang, dis_use=sw["disUse"], dis_contra=sw["disContra"], no_bounds=sw["noBounds"], no_param_fn=sw["noParamFn"])
     import hlib
     import pser
@@ -91,14 +94,15 @@ def main():
         tc = a[0]
         pre = arg(a, k, 3, "type_var_map") or {}
         vc = arg(a, k, 4, "variance_choices")
-        if tc.name.startswith("Function") or arg(a, k, 7, "disable_variance", False) or arg(a, k, 6, "disable_variance_functions", False):
-            return      # PECS / disabled variance rewrite the caller's choices inside the helper
+        # PECS / disabled variance rewrite the caller's choices inside the helper: the options are recorded (HTypeOps.EffChoices)
+        opt = {"isfun": tc.name.startswith("Function"), "pecs": bool(arg(a, k, 5, "enable_pecs", True)),
+               "dvf": bool(arg(a, k, 6, "disable_variance_functions", False)), "dv": bool(arg(a, k, 7, "disable_variance", False))}
         names = {p.name for p in tc.type_parameters}
         pt, m = r
         outer = {p.name: ser(t) for p, t in pre.items() if p.name not in names}
         emit({"kind": "instantiate", "tps": tps_of(tc.type_parameters, outer), "pre": {p.name: ser(t) for p, t in pre.items() if p.name in names},
               "choices": {"on": vc is not None, "m": {p.name: [bool(v[0]), bool(v[1])] for p, v in (vc or {}).items() if p.name in names}},
-              "sw": {"disUse": bool(cfg.dis.use_site_variance), "disContra": bool(cfg.dis.use_site_contravariance)}, "fn": False,
+              "sw": {"disUse": bool(cfg.dis.use_site_variance), "disContra": bool(cfg.dis.use_site_contravariance)}, "fn": False, "opt": opt,
               "outs": [{"args": [ser(x) for x in pt.type_args], "map": {p.name: ser(t) for p, t in m.items() if p.name in names}}],
               "res": [], "exc": [], "leaves": 1, "argdesc": tc.name})
     tu.instantiate_type_constructor = outermost(tu.instantiate_type_constructor, inst_ret)
@@ -113,6 +117,24 @@ def main():
               "fn": True, "outs": [{"args": [ser(r[p]) for p in params], "map": {p.name: ser(t) for p, t in r.items() if p.name in names}}],
               "res": [], "exc": [], "leaves": 1, "argdesc": "function"})
     tu.instantiate_parameterized_function = outermost(tu.instantiate_parameterized_function, instf_ret)
+
+    # the generator also calls the common core of both helpers directly (a generic method of a generic class: class and function
+    # parameters instantiated together); calls made from inside the two helpers above are not outermost and are not recorded twice
+    def core_ret(r, a, k):
+        params = a[0]
+        pre = arg(a, k, 2, "type_var_map") or {}
+        vc = arg(a, k, 3, "variance_choices")
+        names = {p.name for p in params}
+        t_args, m = r
+        outer = {p.name: ser(t) for p, t in pre.items() if p.name not in names}
+        emit({"kind": "instantiate", "tps": tps_of(params, outer), "pre": {p.name: ser(t) for p, t in pre.items() if p.name in names},
+              "choices": {"on": vc is not None, "m": {p.name: [bool(v[0]), bool(v[1])] for p, v in (vc or {}).items() if p.name in names}},
+              "sw": {"disUse": bool(cfg.dis.use_site_variance), "disContra": bool(cfg.dis.use_site_contravariance)},
+              "fn": not bool(arg(a, k, 4, "for_type_constructor", True)),
+              "opt": {"isfun": False, "pecs": True, "dvf": False, "dv": False},
+              "outs": [{"args": [ser(x) for x in t_args], "map": {p.name: ser(t) for p, t in m.items() if p.name in names}}],
+              "res": [], "exc": [], "leaves": 1, "argdesc": "_compute_type_variable_assignments"})
+    tu._compute_type_variable_assignments = outermost(tu._compute_type_variable_assignments, core_ret)
 
     def un_ret(r, a, k):
         if r:
@@ -135,7 +157,129 @@ def main():
             ct = {c: {"tp": v["tp"], "sup": v["sup"]} for c, v in pser.ser_program(p, maxfun=6, walk=False)["ct"].items()}
             cases.append({"id": "%s/%s/%d" % (lang, swn, seed), "lang": lang, "ct": ct, "events": list(rec["events"]), "dropped": rec["dropped"]})
         return cases
-    cases = genlib.in_big_stack(work)
+    def scenes_work():
+        """generator scenes (spec/HGenScene.tla): a real Generator over a real Context holding exactly the scene's declarations"""
+        from src.ir.context import Context
+        from src.generators.generator import Generator
+        from src import utils
+        scenes = json.load(open(SCENES[0]))
+        nseeds = SCENES[1]
+        cases = []
+
+        def fresh():
+            g = Generator(language=lang)
+            g.context = Context()
+            return g
+
+        def B(g, name):
+            return getattr(g.bt_factory, hlib.BUILTIN_GETTERS[name])()
+
+        def build(g, t, env, foo=None):
+            if t["k"] == "V":
+                return env[t["n"]]
+            if t["n"] == "Foo":
+                return foo.get_type().new([build(g, a, env, foo) for a in t["a"]])
+            return B(g, t["n"])
+
+        def mk_tps(g, lst, env, foo=None):
+            out = []
+            for q in lst:
+                x = tp.TypeParameter(q["n"], hlib.VAR[q["v"]], build(g, q["b"][0], env, foo) if q["b"] else None)
+                env[q["n"]] = x
+                out.append(x)
+            return out
+
+        def table(g, extra):
+            ct = {c: {"tp": v["tp"], "sup": v["sup"]} for c, v in pser.builtin_table(g.bt_factory, 4).items()}
+            ct.update(extra)
+            return ct
+        for k, sc in enumerate(scenes):
+            q = sc["id"]
+            rec.update(depth=0, events=[], seen=set(), dropped=0)
+            g = fresh()
+            if q["kind"] == "match":
+                env = {}
+                ctps = mk_tps(g, sc["ctps"], env)
+                foo = ast.ClassDeclaration("Foo", [], ast.ClassDeclaration.REGULAR, fields=[], functions=[], is_final=True, type_parameters=ctps)
+                menv = dict(env)
+                mtps = mk_tps(g, sc["mtps"], menv, foo)
+                mty = build(g, sc["mty"], menv, foo)
+                if q["member"] == "fun":
+                    member = ast.FunctionDeclaration("m", params=[], ret_type=mty, body=ast.BottomConstant(mty),
+                                                     func_type=ast.FunctionDeclaration.CLASS_METHOD, type_parameters=mtps)
+                    foo.functions.append(member)
+                else:
+                    member = ast.FieldDeclaration("f", mty)
+                    foo.fields.append(member)
+                g.context.add_class(ast.GLOBAL_NAMESPACE, "Foo", foo)
+                want = B(g, q["want"])
+                for seed in range(nseeds):
+                    utils.random.r.seed(seed)
+                    try:
+                        info = g._get_matching_class(want, subtype=q["subtype"], attr_name="functions" if q["member"] == "fun" else "fields")
+                    except Exception as e:  # noqa: BLE001
+                        emit({"kind": "match", "S": ser(want), "T": ser(want), "missing": [], "inst": {}, "finst": {}, "res": [], "exc": [type(e).__name__]})
+                        continue
+                    if info is None:
+                        continue
+                    m = dict(info.receiver_inst or {})
+                    # a function's type argument that was given as a projection is written (by every translator) as its bound
+                    m.update({x: (t.bound if t.is_wildcard() and t.bound is not None else t) for x, t in (info.attr_inst or {}).items()})
+                    # reading a member through a projected receiver (capture): out X gives X, in X / * give the parameter's declared bound
+                    # (the top type when it has none)
+                    m = {x: (t if not t.is_wildcard() else t.bound if (t.bound is not None and t.is_covariant()) else
+                             (x.bound if x.bound is not None and not x.bound.has_type_variables() else g.bt_factory.get_any_type())) for x, t in m.items()}
+                    st = tp.substitute_type(member.get_type(), m)
+                    names = [x.name for x in ctps + mtps]
+                    emit({"kind": "match", "S": ser(st), "T": ser(want), "missing": [n for n in names if n not in {x.name for x in m}],
+                          "inst": {x.name: ser(t) for x, t in m.items()}, "finst": {x.name: ser(t) for x, t in (info.attr_inst or {}).items()},
+                          "recv": ser(info.receiver_t), "res": [], "exc": []})
+                ct = table(g, {"Foo": {"tp": sc["ctps"], "sup": []}})
+            elif q["kind"] == "prune":
+                env = {}
+                foo = ast.ClassDeclaration("Foo", [], ast.ClassDeclaration.REGULAR, fields=[], functions=[], is_final=True,
+                                           type_parameters=[tp.TypeParameter("T")])
+                tps = mk_tps(g, sc["tps"], env, foo)
+                for x in tps:
+                    g.context.add_type(g.namespace, x.name, x)
+                used = sorted(q["used"]) if not isinstance(q["used"], dict) else []
+                params = [ast.ParameterDeclaration("p%d" % i, env[n]) for i, n in enumerate(used)]
+                ret = env[q["ret"]] if q["ret"] in env else (foo.get_type().new([env["F_C"]]) if q["ret"] == "FooC" else B(g, "String"))
+                mentioned = sorted(set(used) | ({q["ret"]} if q["ret"] in env else ({"F_C"} if q["ret"] == "FooC" else set())))
+                try:
+                    g._remove_unused_type_params(tps, params, ret)
+                    emit({"kind": "prune", "used": mentioned, "after": tps_of(tps), "res": [], "exc": []})
+                except Exception as e:  # noqa: BLE001
+                    emit({"kind": "prune", "used": [], "after": [], "res": [], "exc": [type(e).__name__]})
+                ct = table(g, {"Foo": {"tp": [{"n": "T", "v": "inv", "b": []}], "sup": []}})
+            else:
+                asked = []
+                orig = g.generate_expr
+
+                nest = [0]
+
+                def spy(expr_type=None, *a, **k):
+                    if nest[0] == 0:          # the two operands only, not what their generation asks for in turn
+                        asked.append(expr_type)
+                    nest[0] += 1
+                    try:
+                        return orig(expr_type, *a, **k)
+                    finally:
+                        nest[0] -= 1
+                g.generate_expr = spy
+                for seed in range(nseeds * 10):
+                    utils.random.r.seed(seed)
+                    del asked[:]
+                    try:
+                        nest[0] = 0
+                        e = g.gen_comparison_expr(only_leaves=True)
+                        emit({"kind": "compare", "lt": ser(asked[0]), "rt": ser(asked[1]), "op": str(e.operator), "res": [], "exc": []})
+                    except Exception as e:  # noqa: BLE001
+                        emit({"kind": "compare", "lt": ser(B(g, "Int")), "rt": ser(B(g, "Int")), "op": "", "res": [], "exc": [type(e).__name__]})
+                ct = table(g, {})
+            cases.append({"id": "%s/scene%d/%s" % (lang, k, json.dumps(q, sort_keys=True)), "lang": lang, "ct": ct, "events": list(rec["events"]), "dropped": rec["dropped"]})
+        return cases
+    cases = genlib.in_big_stack(scenes_work if SCENES else work)
     json.dump({"cases": cases}, open(out, "w"), separators=(",", ":"))
     print(json.dumps([out]))
 
